@@ -5,7 +5,10 @@ package c16
 // updaters, Updater.Parse of a second Updater instance imports it into a
 // recording store; what reaches the store must be what the updaters produced
 // (name, fingerprint, vulnerabilities, enrichment records, one ref per
-// updater). There is no Lean model of this path; these are oracle-only cases.
+// updater). The same scenarios are answered by the Lean model
+// (Model/OfflineV1.lean) through the protocol ops v1export / v1import /
+// v1header: the files of the real zip (paths, fingerprints, refs, the token
+// lists of the inner zip) and the real store calls are compared line by line.
 
 import (
 	"archive/zip"
@@ -16,6 +19,7 @@ import (
 	"io"
 	"io/fs"
 	"net/http"
+	"net/url"
 	"sort"
 	"strings"
 	"sync"
@@ -113,6 +117,9 @@ func (f fakeV) ParseVulnerability(ctx context.Context, sys fs.FS) (*driver.Parse
 	return f.parseV(ctx, sys)
 }
 
+// fakeN implements neither parser interface: parseOne reports "did nothing".
+type fakeN struct{ *fakeBase }
+
 type fakeE struct{ *fakeBase }
 
 func (f fakeE) ParseEnrichment(ctx context.Context, sys fs.FS) ([]driver.EnrichmentRecord, error) {
@@ -144,8 +151,10 @@ func (f *fakeFactory) Create(context.Context, driver.ConfigUnmarshaler) ([]drive
 			us = append(us, fakeVE{b})
 		case d.hasV:
 			us = append(us, fakeV{b})
-		default:
+		case d.hasE:
 			us = append(us, fakeE{b})
+		default:
+			us = append(us, fakeN{b})
 		}
 	}
 	return us, nil
@@ -207,29 +216,35 @@ func genFakes(rnd *hx.Rand) []*fakeData {
 	used := map[string]bool{}
 	for i := 0; i < n; i++ {
 		name := rnd.Pick("rhel", "debian", "osv", "alpine", "u", "x.y", "a-b_c") + fmt.Sprint(rnd.Intn(40))
-		if used[name] {
-			continue
+		if rnd.Chance(1, 25) {
+			name = rnd.Pick("osv/pypi", "a/b", "/x", "y/") // refused by Updater.updaters
+		}
+		if used[name] && !rnd.Chance(1, 3) {
+			continue // (one time in three a repeated name is kept: updaters drops all but the first)
 		}
 		used[name] = true
 		d := &fakeData{name: name, fp: rnd.Pick("", "etag-1", `W/"x"`, "2024-01-01", "{\"a\":1}\n", genStr(rnd, 10))}
-		switch rnd.Intn(5) {
-		case 0:
+		switch c := rnd.Intn(40); {
+		case c == 0:
+			// implements neither parser
+		case c < 8:
 			d.hasE = true
-		case 1, 2:
+		case c < 24:
 			d.hasV = true
 		default:
 			d.hasV, d.hasE = true, true
 		}
-		if d.hasV {
+		// record names are tokens: v<n> / t<n>
+		if d.hasV || rnd.Chance(1, 6) {
 			d.vulns = []string{}
 			for k := pickCount(rnd); k > 0; k-- {
-				d.vulns = append(d.vulns, fmt.Sprintf("CVE-%s-%d", name, k)+genStr(rnd, 4))
+				d.vulns = append(d.vulns, fmt.Sprintf("v%d", rnd.Intn(100000)))
 			}
 		}
-		if d.hasE {
+		if d.hasE || rnd.Chance(1, 6) {
 			d.enrich = []string{}
 			for k := pickCount(rnd); k > 0; k-- {
-				d.enrich = append(d.enrich, fmt.Sprintf("tag-%s-%d", name, k))
+				d.enrich = append(d.enrich, fmt.Sprintf("t%d", rnd.Intn(100000)))
 			}
 		}
 		d.failing = rnd.Chance(1, 12)
@@ -337,8 +352,10 @@ func v1Check(ds []*fakeData, exported map[string]bool, calls []storeCall) string
 		for _, kind := range []byte{'v', 'e'} {
 			var want []string
 			if kind == 'v' {
-				want = d.vulns
-			} else {
+				if d.hasV {
+					want = d.vulns
+				}
+			} else if d.hasE {
 				for _, t := range d.enrich {
 					want = append(want, t+`={"t":"`+t+`"}`)
 				}
@@ -384,18 +401,233 @@ func v1Check(ds []*fakeData, exported map[string]bool, calls []storeCall) string
 	return strings.Join(problems, "; ")
 }
 
+// ---------------------------------------------------------------------------
+// protocol side
+
+// effective is the harness's own reading of Updater.updaters: names with '/'
+// are refused, the first updater of a repeated name is kept (the result is
+// used by name, so the order does not matter here).
+func effective(ds []*fakeData) []*fakeData {
+	var r []*fakeData
+	seen := map[string]bool{}
+	for _, d := range ds {
+		if strings.Contains(d.name, "/") || seen[d.name] {
+			continue
+		}
+		seen[d.name] = true
+		r = append(r, d)
+	}
+	return r
+}
+
+func toks(names []string) string {
+	if len(names) == 0 {
+		return "-"
+	}
+	ts := make([]string, len(names))
+	for i, n := range names {
+		if len(n) < 2 {
+			ts[i] = "?"
+			continue
+		}
+		ts[i] = n[1:]
+	}
+	return strings.Join(ts, ".")
+}
+
+// rawArg renders the updaters as the factory hands them out.
+func rawArg(ds []*fakeData) string {
+	if len(ds) == 0 {
+		return "-"
+	}
+	ss := make([]string, len(ds))
+	for i, d := range ds {
+		fl := ""
+		if d.hasV {
+			fl += "V"
+		}
+		if d.hasE {
+			fl += "E"
+		}
+		if d.failing {
+			fl += "F"
+		}
+		if fl == "" {
+			fl = "-"
+		}
+		ss[i] = fmt.Sprintf("%s:%s:%s:%s:%s", d.name, hx.Hex([]byte(d.fp)), fl, toks(d.vulns), toks(d.enrich))
+	}
+	return strings.Join(ss, ";")
+}
+
+// zipListing reads the export independently of the import code: every file
+// of the outer zip in zip order, with what it holds.
+func zipListing(export []byte) (listing string, order []string, header string) {
+	zr, err := zip.NewReader(bytes.NewReader(export), int64(len(export)))
+	if err != nil {
+		return "unreadable-zip", nil, ""
+	}
+	header = zr.Comment
+	var parts []string
+	for _, f := range zr.File {
+		name := f.Name
+		read := func() []byte {
+			rc, err := f.Open()
+			if err != nil {
+				return nil
+			}
+			defer rc.Close()
+			b, _ := io.ReadAll(rc)
+			return b
+		}
+		switch {
+		case name == "config.json":
+			parts = append(parts, "config.json")
+		case strings.HasSuffix(name, "/"):
+			parts = append(parts, name+"=d")
+			order = append(order, strings.TrimSuffix(name, "/"))
+		case strings.HasSuffix(name, "/fingerprint"):
+			parts = append(parts, name+"="+hx.Hex(read()))
+		case strings.HasSuffix(name, "/ref"):
+			var u uuid.UUID
+			if err := u.UnmarshalText(read()); err != nil {
+				parts = append(parts, name+"=?")
+			} else {
+				parts = append(parts, fmt.Sprintf("%s=%d", name, canon(u)))
+			}
+		case strings.HasSuffix(name, "/data"):
+			b := read()
+			v, e := "?", "?"
+			if in, err := zip.NewReader(bytes.NewReader(b), int64(len(b))); err == nil {
+				get := func(n string) string {
+					bs, err := fs.ReadFile(in, n)
+					if err != nil {
+						return "?"
+					}
+					var names []string
+					if json.Unmarshal(bs, &names) != nil {
+						return "?"
+					}
+					return toks(names)
+				}
+				v, e = get("vulns.json"), get("enrich.json")
+			}
+			parts = append(parts, name+"="+v+"|"+e)
+		default:
+			parts = append(parts, name+"=unexpected")
+		}
+	}
+	return strings.Join(parts, ","), order, header
+}
+
+func callsLine(calls []storeCall, out string) string {
+	var ss []string
+	for _, c := range calls {
+		k := "V"
+		items := make([]string, len(c.items))
+		copy(items, c.items)
+		if c.kind == 'e' {
+			k = "E"
+			for i, it := range items { // tag={"t":"tag"}
+				if j := strings.IndexByte(it, '='); j >= 0 {
+					items[i] = it[:j]
+				}
+			}
+		}
+		ss = append(ss, fmt.Sprintf("%s/%d/%s/%s/%s", k, canon(c.ref), c.name, hx.Hex([]byte(c.fp)), toks(items)))
+	}
+	if out == "" {
+		ss = append(ss, "ok")
+	} else {
+		ss = append(ss, "err")
+	}
+	return strings.Join(ss, " ")
+}
+
+// exportOp runs Fetch under a scripted uuid source and emits the v1export line.
+func exportOp(r *hx.Run, ctx context.Context, ds []*fakeData, prev []byte) (export []byte, prevSeen map[string]string, out string) {
+	src := &uuidSrc{}
+	uuid.SetRand(src)
+	defer uuid.SetRand(nil)
+	var pr io.ReaderAt
+	usePrev := "0"
+	if prev != nil {
+		pr = bytes.NewReader(prev)
+		usePrev = "1"
+	}
+	export, prevSeen, out = v1Export(ctx, ds, pr)
+	if out != "" {
+		return nil, prevSeen, out
+	}
+	listing, order, header := zipListing(export)
+	refs := make([]uint64, len(ds)+1)
+	for i := range refs {
+		refs[i] = uint64(i) + 1
+	}
+	ord := "-"
+	if len(order) > 0 {
+		ord = strings.Join(order, ",")
+	}
+	r.Op(fmt.Sprintf("v1export %s %s %s %s", rawArg(ds), usePrev, ord, joinU(refs)), listing, true)
+	hv := ""
+	if vals, err := url.ParseQuery(header); err == nil {
+		hv = vals.Get("ClaircoreUpdaterExport")
+	}
+	if hv != "1" {
+		r.Fail("", fmt.Sprintf("the export carries the header %q: %s", header, describeFakes(ds)))
+	}
+	return export, prevSeen, ""
+}
+
+func importOp(r *hx.Run, ctx context.Context, ds []*fakeData, export []byte) ([]storeCall, string) {
+	calls, out := v1Import(ctx, ds, export)
+	if out == "hang" || strings.HasPrefix(out, "new:") || out == "panic" {
+		r.Op("v1import "+rawArg(ds), out, true)
+		return calls, out
+	}
+	r.Op("v1import "+rawArg(ds), callsLine(calls, out), true)
+	return calls, out
+}
+
+// v1Headers: Parse refuses a zip that is not an export, or of another version.
+func v1Headers(r *hx.Run) {
+	ctx := context.Background()
+	for _, h := range []string{"", "1", "2", "01", "1x", "v1"} {
+		var buf bytes.Buffer
+		z := zip.NewWriter(&buf)
+		w, _ := z.Create("config.json")
+		w.Write([]byte("{}\n"))
+		if h != "" {
+			v := make(url.Values)
+			v.Set("ClaircoreUpdaterExport", h)
+			z.SetComment(v.Encode())
+		}
+		z.Close()
+		_, out := v1Import(ctx, nil, buf.Bytes())
+		got := "true"
+		if out != "" {
+			got = "false"
+		}
+		arg := h
+		if arg == "" {
+			arg = "-"
+		}
+		r.Op("v1header "+arg, got, false)
+	}
+}
+
 // v1Witness is the history of the repaired defect: an updater that only
 // parses enrichments made Parse panic (nil ParsedVulnerabilities).
 func v1Witness(r *hx.Run) {
 	ctx := context.Background()
 	ds := []*fakeData{{name: "enrich-only", fp: "fp", hasE: true, enrich: []string{"t1", "t2"}}}
-	export, _, out := v1Export(ctx, ds, nil)
+	export, _, out := exportOp(r, ctx, ds, nil)
 	r.Case("v1-witness "+describeFakes(ds), true)
 	if out != "" {
 		r.Fail("", "v1 export failed ("+out+") "+describeFakes(ds))
 		return
 	}
-	calls, out := v1Import(ctx, ds, export)
+	calls, out := importOp(r, ctx, ds, export)
 	if out != "" {
 		r.Fail("", "v1 import failed ("+out+") "+describeFakes(ds))
 		return
@@ -403,73 +635,154 @@ func v1Witness(r *hx.Run) {
 	if p := v1Check(ds, map[string]bool{"enrich-only": true}, calls); p != "" {
 		r.Fail("", "v1 export/import round trip: "+p+" "+describeFakes(ds))
 	}
+	// the repaired export: an updater is handed the fingerprint the previous export recorded for it
+	ds2 := []*fakeData{{name: "rhel", fp: "etag-1", hasV: true, vulns: []string{"v1"}}, {name: "osv", fp: "etag-2", hasV: true, vulns: []string{"v2"}}}
+	first, _, out := exportOp(r, ctx, ds2, nil)
+	if out != "" {
+		r.Fail("", "v1 export failed ("+out+") "+describeFakes(ds2))
+		return
+	}
+	ds2[1].fp, ds2[1].vulns = "etag-3", []string{"v2", "v3"}
+	second, prevSeen, out := exportOp(r, ctx, ds2, first)
+	if out != "" {
+		r.Fail("", "v1 incremental export failed ("+out+") "+describeFakes(ds2))
+		return
+	}
+	if prevSeen["rhel"] != "etag-1" || prevSeen["osv"] != "etag-2" {
+		r.Fail("", fmt.Sprintf("export against a previous export: the updaters were handed the previous fingerprints %q, want rhel=etag-1 osv=etag-2", prevSeen))
+	}
+	calls, out = importOp(r, ctx, ds2, second)
+	if p := v1Check(ds2, map[string]bool{"osv": true}, calls); out != "" || p != "" {
+		r.Fail("", "v1 incremental export/import: "+out+" "+p+" "+describeFakes(ds2))
+	}
 }
 
 func v1Scenario(r *hx.Run, rnd *hx.Rand) {
 	ctx := context.Background()
 	ds := genFakes(rnd)
 	desc := describeFakes(ds)
-	export, _, out := v1Export(ctx, ds, nil)
+	export, _, out := exportOp(r, ctx, ds, nil)
 	r.Case("v1 "+desc, len(ds) > 1)
 	r.Count("v1:updaters=" + sizeBucket(len(ds)))
+	if len(effective(ds)) != len(ds) {
+		r.Count("v1:refused-or-repeated-names")
+	}
 	if out != "" {
 		r.Fail("", "v1 export failed ("+out+") "+desc)
 		return
 	}
+	eff := effective(ds)
 	exported := map[string]bool{}
-	for _, d := range ds {
+	neither := false
+	for _, d := range eff {
 		exported[d.name] = !d.failing
+		if exported[d.name] && !d.hasV && !d.hasE {
+			neither = true
+		}
 	}
-	calls, out := v1Import(ctx, ds, export)
-	for _, d := range ds {
+	// the importing side may be configured differently: updaters missing, other parser interfaces
+	imp := ds
+	varied := false
+	if rnd.Chance(1, 5) && len(ds) > 0 {
+		varied = true
+		imp = nil
+		for _, d := range ds {
+			if rnd.Chance(1, 4) {
+				continue
+			}
+			c := *d
+			if rnd.Chance(1, 3) {
+				c.hasV, c.hasE = rnd.Chance(1, 2), rnd.Chance(1, 2)
+			}
+			imp = append(imp, &c)
+		}
+		r.Count("v1:import-side-differs")
+	}
+	calls, out := importOp(r, ctx, imp, export)
+	for _, d := range eff {
 		if exported[d.name] && !d.hasV {
 			r.Count("v1:enrichment-only-updater")
 		}
+	}
+	if varied {
+		return // judged by the model only
+	}
+	if neither {
+		r.Count("v1:updater-with-no-parser")
+		if out == "" {
+			r.Fail("", "v1 import of an updater that implements no parser interface returned nil "+desc)
+		}
+		return
 	}
 	if out != "" {
 		r.Count("v1:import=" + strings.SplitN(out, ":", 2)[0])
 		r.Fail("", "v1 import failed ("+out+") "+desc)
 		return
 	}
-	if p := v1Check(ds, exported, calls); p != "" {
+	if p := v1Check(eff, exported, calls); p != "" {
 		r.Fail("", "v1 export/import round trip: "+p+" "+desc)
 		return
 	}
 	// incremental export against the previous one: unchanged updaters are left
 	// out, changed ones are exported and imported as before
 	if rnd.Chance(1, 2) && len(ds) > 0 {
-		changed := map[string]bool{}
 		for _, d := range ds {
 			d.failing = false
 			if rnd.Chance(1, 2) {
 				d.fp += "+1"
 				if d.hasV {
-					d.vulns = append(d.vulns, "CVE-new-"+d.name)
+					d.vulns = append(d.vulns, fmt.Sprintf("v%d", 100000+rnd.Intn(1000)))
 				}
-				changed[d.name] = true
 			}
 		}
-		export2, prevSeen, out := v1Export(ctx, ds, bytes.NewReader(export))
+		export2, prevSeen, out := exportOp(r, ctx, ds, export)
 		if out != "" {
 			r.Fail("", "v1 incremental export failed ("+out+") "+desc)
 			return
 		}
+		// the previous fingerprints, read from the first export by the harness itself
+		prevFP := map[string]string{}
+		if zr, err := zip.NewReader(bytes.NewReader(export), int64(len(export))); err == nil {
+			for _, f := range zr.File {
+				if strings.HasSuffix(f.Name, "/fingerprint") {
+					if b, err := fs.ReadFile(zr, f.Name); err == nil {
+						prevFP[strings.TrimSuffix(f.Name, "/fingerprint")] = string(b)
+					}
+				}
+			}
+		}
 		exported2 := map[string]bool{}
-		for _, d := range ds {
+		for _, d := range effective(ds) {
+			if prevSeen[d.name] != prevFP[d.name] {
+				r.Fail("", fmt.Sprintf("export against a previous export: updater %s was handed the previous fingerprint %q, the previous export holds %q; %s", d.name, prevSeen[d.name], prevFP[d.name], describeFakes(ds)))
+				return
+			}
 			// exported unless the updater reported ErrUnchanged (it was given its own fingerprint back)
-			exported2[d.name] = !(prevSeen[d.name] != "" && prevSeen[d.name] == d.fp)
+			exported2[d.name] = !(prevFP[d.name] != "" && prevFP[d.name] == d.fp)
 			if prevSeen[d.name] != "" {
 				r.Count("v1:prev-fingerprint-passed")
 			} else {
 				r.Count("v1:prev-fingerprint-empty")
 			}
+			if !exported2[d.name] {
+				r.Count("v1:unchanged-left-out")
+			}
 		}
-		calls2, out := v1Import(ctx, ds, export2)
+		calls2, out := importOp(r, ctx, ds, export2)
+		for _, d := range effective(ds) {
+			if exported2[d.name] && !d.hasV && !d.hasE {
+				r.Count("v1:updater-with-no-parser")
+				if out == "" {
+					r.Fail("", "v1 import of an updater that implements no parser interface returned nil "+describeFakes(ds))
+				}
+				return
+			}
+		}
 		if out != "" {
 			r.Fail("", "v1 import of incremental export failed ("+out+") "+describeFakes(ds))
 			return
 		}
-		if p := v1Check(ds, exported2, calls2); p != "" {
+		if p := v1Check(effective(ds), exported2, calls2); p != "" {
 			r.Fail("", "v1 incremental export/import round trip: "+p+" "+describeFakes(ds))
 		}
 		r.Case("v1-incremental "+describeFakes(ds), true)
